@@ -239,3 +239,46 @@ func FixedAffixes(r *syntax.Regexp) (prefix, suffix int, ok bool) {
 	}
 	return prefix, suffix, true
 }
+
+// MinLen returns the length in bytes of the shortest string the expression matches.
+func MinLen(r *syntax.Regexp) int {
+	switch r.Op {
+	case syntax.OpLiteral:
+		return len(string(r.Rune))
+	case syntax.OpCharClass, syntax.OpAnyChar, syntax.OpAnyCharNotNL:
+		return 1
+	case syntax.OpCapture:
+		return MinLen(r.Sub[0])
+	case syntax.OpConcat:
+		n := 0
+		for _, s := range r.Sub {
+			n += MinLen(s)
+		}
+		return n
+	case syntax.OpAlternate:
+		m := -1
+		for _, s := range r.Sub {
+			if l := MinLen(s); m < 0 || l < m {
+				m = l
+			}
+		}
+		if m < 0 {
+			return 0
+		}
+		return m
+	case syntax.OpPlus:
+		return MinLen(r.Sub[0])
+	case syntax.OpRepeat:
+		return r.Min * MinLen(r.Sub[0])
+	}
+	return 0 // star, quest, empty matches, anchors
+}
+
+// MinLenOf parses the pattern and returns MinLen.
+func MinLenOf(pattern string) (int, error) {
+	re, err := syntax.Parse(pattern, syntax.Perl)
+	if err != nil {
+		return 0, err
+	}
+	return MinLen(re), nil
+}
